@@ -13590,7 +13590,15 @@ func ParseExtendedCommunity(subtype ExtendedCommunityAttrSubType, com string) (E
 	case addr.Is6():
 		return NewIPv6AddressSpecificExtended(subtype, addr, uint16(localAdmin), isTransitive)
 	case elems[6] == "" && elems[7] == "":
-		asn, _ := strconv.ParseUint(elems[8], 10, 16)
+		// asplain: a number above 65535 is a 4-octet AS (a 16-bit ParseUint would
+		// return 65535 together with a range error)
+		asn, err := strconv.ParseUint(elems[8], 10, 32)
+		if err != nil {
+			return nil, fmt.Errorf("invalid AS number %q", elems[8])
+		}
+		if asn > math.MaxUint16 {
+			return NewFourOctetAsSpecificExtended(subtype, uint32(asn), uint16(localAdmin), isTransitive), nil
+		}
 		return NewTwoOctetAsSpecificExtended(subtype, uint16(asn), uint32(localAdmin), isTransitive), nil
 	default:
 		fst, _ := strconv.ParseUint(elems[7], 10, 16)
